@@ -585,6 +585,15 @@ def inline_new_helpers(trees):
                 if ok and any(_bind(s.call, fn, is_method) is None
                               for s in sites):
                     ok = False
+                if ok and not sites and not recursive and \
+                        (modname, qual) in CANONICALLY_INLINED:
+                    # folded into its caller by hand and left behind
+                    # unused: dead code, dropped
+                    if not holder:
+                        holder.append(ast.Pass())
+                    done.append('%s.%s (unused) dropped' % (modname, qual))
+                    changed = True
+                    continue
                 if not ok or not sites or recursive:
                     holder.insert(pos, fn)
                     continue
@@ -800,7 +809,7 @@ def canonicalise(trees):
         index_reads_to_unpacking, propagate_pure_aliases, ifexp_statements,
         split_parallel_copies, sink_branch_temps, thread_none_tests,
         or_assignments, unroll_literal_loops, partial_eval_literal_dicts,
-        fold_constants, split_reassigned_locals, any_listcomp_to_loop,
+        fold_constants, split_reassigned_locals, split_concat_loops, any_listcomp_to_loop,
         filtered_snapshot_loops, split_returned_tuple_temps,
         rename_copy_temps, unnegate_ifs,
         inline_single_use_temps,
@@ -1737,6 +1746,36 @@ def split_reassigned_locals(trees):
                             elif i == end and end < len(blk) and isinstance(
                                     m.ctx, ast.Load):
                                 m.id = nm   # right-hand side of the next
+                    n += 1
+    return n
+
+
+def split_concat_loops(trees):
+    """``for T in A + B: body`` (A, B plain names, the body has no
+    break/continue and binds neither) -> ``for T in A: body`` followed by
+    ``for T in B: body``."""
+    n = 0
+    for tree in trees.values():
+        for fn in _fn_scopes(tree):
+            for blk in _blocks(fn):
+                for st in list(blk):
+                    if not (isinstance(st, ast.For) and not st.orelse and
+                            isinstance(st.iter, ast.BinOp) and isinstance(
+                                st.iter.op, ast.Add) and isinstance(
+                                st.iter.left, ast.Name) and isinstance(
+                                st.iter.right, ast.Name)):
+                        continue
+                    a, b = st.iter.left.id, st.iter.right.id
+                    inner = [m for x in st.body for m in ast.walk(x)]
+                    if any(isinstance(m, (ast.Break, ast.Continue))
+                           for m in inner) or any(
+                            isinstance(m, ast.Name) and m.id in (a, b) and
+                            not isinstance(m.ctx, ast.Load) for m in inner):
+                        continue
+                    second = copy.deepcopy(st)
+                    st.iter = st.iter.left
+                    second.iter = second.iter.right
+                    blk.insert(blk.index(st) + 1, second)
                     n += 1
     return n
 
